@@ -154,16 +154,20 @@ MacOf(choice, orig, ss2) == CASE choice = "orig" -> orig
 VARIABLES rs, ids, hdr, edit, res
 vars == <<rs, ids, hdr, edit, res>>
 
+EncOnly == Mode \in {"labels", "scryptlists"}     \* modes that stop after Encrypt
 RecipUniverse ==
   CASE Mode = "labels" -> {Labelled(ls) : ls \in LabelSets} \cup {Failing, KeyRecip(CHOOSE k \in Keys : KType(k) = "X25519")}
                           \cup {NoStanza(Absent), NoStanza(Lbl(<<"a">>)), NoStanza(Lbl(<<"b", "a">>))}
+    \* C10's lists: every key recipient together with custom recipients of every shape, those that contribute no stanza included
+    [] Mode = "scryptlists" -> {KeyRecip(k) : k \in Keys} \cup {Grease, Failing, Labelled(Absent), Labelled(Lbl(<<>>)), Labelled(Lbl(<<"a">>)),
+                                                             NoStanza(Absent), NoStanza(Lbl(<<>>)), NoStanza(Lbl(<<"a">>))}
     [] OTHER -> {KeyRecip(k) : k \in Keys} \cup {Grease}
 RecipLists == UNION {[1..n -> RecipUniverse] : n \in 1..MaxRecips}
 IdLists == UNION {[1..n -> Keys] : n \in 1..MaxIds}
 NoEdit == [e |-> "none", p |-> 0, q |-> 0, what |-> "-", key |-> "-", perm |-> <<>>, mac |-> "orig"]
 
 Init == /\ rs \in RecipLists
-        /\ ids \in (IF Mode = "labels" THEN {<<>>} ELSE IdLists)
+        /\ ids \in (IF EncOnly THEN {<<>>} ELSE IdLists)
         /\ hdr = (IF Encrypt(rs).ok THEN HonestHeader(rs) ELSE [stanzas |-> <<>>, mac |-> [k |-> "-", over |-> <<>>]])
         /\ edit = NoEdit /\ res = [c |-> "init", fk |-> "-", tried |-> 0]
 
@@ -172,7 +176,7 @@ Tamper == /\ Mode = "tamper" /\ res.c = "init" /\ Encrypt(rs).ok
                /\ hdr' = [stanzas |-> ed.ss, mac |-> MacOf(m, hdr.mac, ed.ss)]
                /\ edit' = [e |-> ed.e, p |-> ed.p, q |-> ed.q, what |-> ed.what, key |-> ed.key, perm |-> ed.perm, mac |-> m]
           /\ res' = [c |-> "tampered", fk |-> "-", tried |-> 0] /\ UNCHANGED <<rs, ids>>
-DoDecrypt == /\ Mode # "labels" /\ Encrypt(rs).ok
+DoDecrypt == /\ ~EncOnly /\ Encrypt(rs).ok
              /\ res.c = (IF Mode = "tamper" THEN "tampered" ELSE "init")
              /\ res' = Decrypt(ids, hdr) /\ UNCHANGED <<rs, ids, hdr, edit>>
 Next == Tamper \/ DoDecrypt
@@ -200,7 +204,7 @@ ScryptAloneEnc == Encrypt(rs).ok => \A i \in 1..Len(rs) : (rs[i].k = "K" /\ KTyp
 LabelRule == /\ (Encrypt(rs).ok <=> (\A i \in 1..Len(rs) : rs[i].k # "F" /\ LabelSet(rs[i], i) = LabelSet(rs[1], 1)))
              /\ (~Encrypt(rs).ok => Encrypt(rs).written = 0)
 
-Emit == (Done \/ (Mode = "labels") \/ (~Encrypt(rs).ok /\ res.c = "init")) =>
+Emit == (Done \/ EncOnly \/ (~Encrypt(rs).ok /\ res.c = "init")) =>
    PrintT("CASE " \o ToJson([rs |-> rs, ids |-> ids, edit |-> edit,
                               enc |-> [ok |-> Encrypt(rs).ok, why |-> (IF Mode = "labels" /\ Ambiguous(rs) THEN "ambiguous" ELSE Encrypt(rs).why)],
                               res |-> res, untouched |-> Untouched,
